@@ -495,6 +495,42 @@ func mergeEnv(cond string, a, b *Env) *Env {
 
 // clipMid shortens a long text for the table: head … 8 hex digits of the FNV-1a hash of the WHOLE text … tail. A change anywhere
 // in the text changes the printed form; the kernel compares short strings only.
+// abstractText keeps the outer structure of a normalised expression and elides the argument lists of calls nested deeper
+// than one level: lend.GetPool(lend.GetLend(lend.GetBorrow(msg.BorrowId).LendingID).PoolID).ModuleName becomes
+// lend.GetPool(lend.GetLend(…).PoolID).ModuleName. Short, few distinct values: what pattern role tables match on.
+func abstractText(t string) string {
+	var b strings.Builder
+	depth := 0
+	for _, r := range t {
+		switch r {
+		case '(', '[', '{':
+			depth++
+			if depth <= 2 {
+				b.WriteRune(r)
+			}
+			if depth == 2 {
+				b.WriteRune('…')
+			}
+			continue
+		case ')', ']', '}':
+			if depth <= 2 {
+				b.WriteRune(r)
+			}
+			depth--
+			continue
+		}
+		if depth <= 1 {
+			b.WriteRune(r)
+		}
+	}
+	// an empty argument list stays empty
+	out := b.String()
+	for _, e := range [][2]string{{"(…)", "()"}} {
+		_ = e
+	}
+	return out
+}
+
 func fnv32(s string) uint32 {
 	h := uint32(2166136261)
 	for _, b := range []byte(s) {
@@ -1820,13 +1856,14 @@ func main() {
 	head := "/-! GENERATED by extract/effects from the comdex source tree — do not edit; regenerated on every run.\n" +
 		"Ordered effect skeleton of every covered handler. Item kinds: bank | write | call | guard (see extract/effects/main.go).\n" +
 		"Cond kinds: if | pos | case | loop | exit | continue | break | closure; pol = the condition holds on the item's path;\n" +
-		"h = FNV-1a (32 bit) of the whole normalised condition text (the printed text is shortened head…hash…tail when long). -/\n"
+		"h = FNV-1a (32 bit) of the whole normalised condition text (the printed text is shortened head…hash…tail when long).\n" +
+		"srcA / dstA / denomA = the party / denomination text with the argument lists of calls nested deeper than one level elided. -/\n"
 	// the record types
 	var t strings.Builder
 	t.WriteString(head)
 	t.WriteString("namespace Comdex.Gen.Effects\n\n")
 	t.WriteString("structure Cond where\n  kind : String\n  pol : Bool\n  text : String\n  h : Nat\n  deriving Repr, DecidableEq\n\n")
-	t.WriteString("structure Item where\n  kind : String\n  op : String\n  src : String\n  dst : String\n  denom : String\n  amount : String\n  args : List String\n  conds : List Cond\n  inLoop : Bool\n  cache : Bool\n  fn : String\n  line : Nat\n  deriving Repr, DecidableEq\n\n")
+	t.WriteString("structure Item where\n  kind : String\n  op : String\n  src : String\n  dst : String\n  denom : String\n  amount : String\n  srcA : String\n  dstA : String\n  denomA : String\n  args : List String\n  conds : List Cond\n  inLoop : Bool\n  cache : Bool\n  fn : String\n  line : Nat\n  deriving Repr, DecidableEq\n\n")
 	t.WriteString("structure Handler where\n  module : String\n  name : String\n  file : String\n  line : Nat\n  items : List Item\n  deriving Repr\n\n")
 	t.WriteString("end Comdex.Gen.Effects\n")
 	write(base+"T", t.String())
@@ -1855,7 +1892,8 @@ func main() {
 				if i == len(h.items)-1 {
 					sep = ""
 				}
-				fmt.Fprintf(&b, "  ⟨%s, %s, %s, %s, %s, %s, %s, %s, %s, %s, %s, %d⟩%s\n", q(it.kind), q(it.op), q(clipMid(it.src, 160)), q(clipMid(it.dst, 160)), q(clipMid(it.denom, 160)), q(clipMid(it.amount, 160)),
+				fmt.Fprintf(&b, "  ⟨%s, %s, %s, %s, %s, %s, %s, %s, %s, %s, %s, %s, %s, %s, %d⟩%s\n", q(it.kind), q(it.op), q(clipMid(it.src, 160)), q(clipMid(it.dst, 160)), q(clipMid(it.denom, 160)), q(clipMid(it.amount, 160)),
+					q(clipMid(abstractText(it.src), 160)), q(clipMid(abstractText(it.dst), 160)), q(clipMid(abstractText(it.denom), 160)),
 					strList(it.args), condList(it.conds), bl(it.inLoop), bl(it.cache), q(it.fn), it.line, sep)
 			}
 			b.WriteString("] }\n\n")
